@@ -758,37 +758,72 @@ def bytesLit (raw : Bool) (body : List Nat) : Res := bytesGo (body.length + 1) r
 /-! ## f-strings: error arms of `parse_fstring`, `parse_formatted_value`, `parse_spec`
 
   Characters of the supported alphabet are all ASCII, so byte offsets are character counts.
-  `exprOk` decides the embedded expression for the alphabet of the exhaustive stream
-  (`y`, `r`, braces and the operators `!=`, `==`, `<=`, `>=`).  -/
+  `exprOk` decides the embedded expression for the alphabets of the exhaustive streams
+  (`y`, `r`, the three bracket kinds, quoted strings and the operators `!=`, `==`, `<=`, `>=`).  -/
 
 def isNameCh (c : Nat) : Bool := c = 121 || c = 114      -- y r
 
 inductive ESt where
-  | need | needOrClose | inName | after
+  | need | opened | inName | afterStr | after
 deriving DecidableEq, Repr
 
-/-- `cmp := operand (OP operand)*`, `operand := NAME | '{' '}' | '{' cmp '}'` (a set or an empty dict),
-    OP one of `!= == <= >=`, NAME a run of `y`/`r`. -/
-def exprOkGo : ESt → Nat → List Nat → Bool
-  | st, depth, [] => (st == .after || st == .inName) && depth == 0
-  | .need, depth, c :: r =>
-    if isNameCh c then exprOkGo .inName depth r
-    else if c = 123 then exprOkGo .needOrClose (depth + 1) r
-    else false
-  | .needOrClose, depth, c :: r =>
-    if isNameCh c then exprOkGo .inName depth r
-    else if c = 123 then exprOkGo .needOrClose (depth + 1) r
-    else if c = 125 then exprOkGo .after (depth - 1) r
-    else false
-  | st, depth, c :: r =>
-    if isNameCh c then st == .inName && exprOkGo .inName depth r
-    else if c = 125 then (depth > 0) && exprOkGo .after (depth - 1) r
-    else
-      match r with
-      | 61 :: r' => (c = 33 || c = 61 || c = 60 || c = 62) && exprOkGo .need depth r'
-      | _ => false
+structure EFrame where
+  opener : Nat
+  subscript : Bool
+deriving Repr
 
-def exprOk (e : List Nat) : Bool := exprOkGo .need 0 e
+def closes (opener c : Nat) : Bool :=
+  (opener = 40 && c = 41) || (opener = 91 && c = 93) || (opener = 123 && c = 125)
+
+/-- the text after the closing `qqq` of a triple-quoted string (no backslashes in the streams' expressions) -/
+def afterTriple (q : Nat) : List Nat → Option (List Nat)
+  | a :: b :: c :: rest =>
+    if a = q && b = q && c = q then some rest else afterTriple q (b :: c :: rest)
+  | _ => none
+
+/-- viable-prefix machine for the expressions that can occur in the f-string streams:
+    `cmp := operand (OP operand)*`, `operand := atom trailer*`,
+    `atom := NAME | STRING+ | '(' [cmp] ')' | '[' [cmp] ']' | '{' [cmp] '}'`,
+    `trailer := '(' [cmp] ')' | '[' cmp ']'`, OP one of `!= == <= >=`, NAME a run of `y`/`r`,
+    STRING a quote up to the same quote.  `fuel` ≥ length. -/
+def exprOkGo (fuel : Nat) (st : ESt) (stack : List EFrame) (cs : List Nat) : Bool :=
+  match fuel with
+  | 0 => false
+  | fuel + 1 =>
+    match cs with
+    | [] => stack.isEmpty && (st == .inName || st == .afterStr || st == .after)
+    | c :: r =>
+      if isNameCh c then
+        (st == .need || st == .opened || st == .inName) && exprOkGo fuel .inName stack r
+      else if c = 34 || c = 39 then
+        let body := r.takeWhile (· ≠ c)
+        let fits := st == .need || st == .opened || st == .afterStr
+        if headIs (· = c) r && headIs (· = c) r.tail then
+          -- the Python lexer reads `qqq` as the start of a triple-quoted string
+          match afterTriple c (r.drop 2) with
+          | some rest => fits && rest.length < r.length && exprOkGo fuel .afterStr stack rest
+          | none => false
+        else
+          fits && body.length < r.length && exprOkGo fuel .afterStr stack (r.drop (body.length + 1))
+      else if c = 40 || c = 91 || c = 123 then
+        if st == .need || st == .opened then exprOkGo fuel .opened (⟨c, false⟩ :: stack) r
+        else if c = 40 then exprOkGo fuel .opened (⟨40, false⟩ :: stack) r
+        else if c = 91 then exprOkGo fuel .opened (⟨91, true⟩ :: stack) r
+        else false
+      else if c = 41 || c = 93 || c = 125 then
+        match stack with
+        | [] => false
+        | f :: fs =>
+          closes f.opener c && (if st == .opened then !f.subscript else st != .need) &&
+            exprOkGo fuel .after fs r
+      else
+        match r with
+        | 61 :: r' =>
+          (c = 33 || c = 61 || c = 60 || c = 62) && (st == .inName || st == .afterStr || st == .after) &&
+            exprOkGo fuel .need stack r'
+        | _ => false
+
+def exprOk (e : List Nat) : Bool := exprOkGo (e.length + 1) .need [] e
 
 abbrev FRes := Except (Kind × Nat) (List Nat × Nat)      -- rest, position
 
@@ -826,7 +861,7 @@ def fvGo (fuel nested loc : Nat) (st : FVState) (pos : Nat) (cs : List Nat) : FR
         match specGo fuel nested (pos + 1) rest with
         | .error e => .error e
         | .ok (rest', pos') => fvGo fuel nested loc st pos' rest'
-      else if ch = 40 || ch = 123 || ch = 91 then
+      else if (ch = 40 || ch = 123 || ch = 91) && !st.selfDoc then
         fvGo fuel nested loc { st with expr := ch :: st.expr, delims := ch :: st.delims } (pos + 1) rest
       else if ch = 41 || ch = 93 then
         match st.delims with
@@ -845,16 +880,25 @@ def fvGo (fuel nested loc : Nat) (st : FVState) (pos : Nat) (cs : List Nat) : FR
         if st.expr.all (· = 32) then .error (.fstring .emptyExpression, pos + 1)
         else if exprOk st.expr.reverse then .ok (rest, pos + 1)
         else .error (.fstring .invalidExpression, loc)
-      else if ch = 34 || ch = 39 then
-        -- quoted text inside the expression runs to the same quote
-        let body := rest.takeWhile (· ≠ ch)
-        let after := rest.drop body.length
-        match after with
-        | [] => .error (.fstring .unterminatedString, pos + 1 + body.length)
-        | _ :: after' =>
-          fvGo fuel nested loc { st with expr := ch :: (body.reverse ++ ch :: st.expr) }
-            (pos + body.length + 2) after'
-      else if ch = 32 && st.selfDoc then fvGo fuel nested loc st (pos + 1) rest
+      else if (ch = 34 || ch = 39) && !st.selfDoc then
+        if headIs (· = ch) rest && headIs (· = ch) rest.tail then
+          -- a triple-quoted string ends at the first three quote characters in a row
+          match afterTriple ch (rest.drop 2) with
+          | none => .error (.fstring .unterminatedString, pos + 1 + rest.length)
+          | some after' =>
+            let n := rest.length - after'.length
+            fvGo fuel nested loc { st with expr := (rest.take n).reverse ++ ch :: st.expr } (pos + 1 + n) after'
+        else
+          -- quoted text inside the expression runs to the same quote
+          let body := rest.takeWhile (· ≠ ch)
+          let after := rest.drop body.length
+          match after with
+          | [] => .error (.fstring .unterminatedString, pos + 1 + body.length)
+          | _ :: after' =>
+            fvGo fuel nested loc { st with expr := ch :: (body.reverse ++ ch :: st.expr) }
+              (pos + body.length + 2) after'
+      else if (ch = 32 || ch = 9 || ch = 10 || ch = 11 || ch = 12) && st.selfDoc then
+        fvGo fuel nested loc st (pos + 1) rest
       else if ch = 92 then .error (.fstring .unterminatedString, pos + 1)
       else if st.selfDoc then .error (.fstring .unclosedLbrace, pos + 1)
       else fvGo fuel nested loc { st with expr := ch :: st.expr } (pos + 1) rest
@@ -871,6 +915,14 @@ def specGo (fuel nested pos : Nat) (cs : List Nat) : FRes :=
       | .error e => .error e
       | .ok (rest', pos') => specGo fuel nested pos' rest'
     | 125 :: _ => .ok (cs, pos)
+    | 92 :: rest =>
+      -- as in `parse_fstring`: `\{` / `\}` keep the backslash and re-read the brace, other escapes of the
+      -- supported alphabet are two characters and never fail
+      if headIs (fun c => c = 123 || c = 125) rest then specGo fuel nested (pos + 1) rest
+      else
+        match rest with
+        | [] => .error (.stringError, pos + 1)
+        | _ :: rest' => specGo fuel nested (pos + 2) rest'
     | _ :: rest => specGo fuel nested (pos + 1) rest
 
 /-- `parse_fstring(nested)` -/
